@@ -381,6 +381,42 @@ def isolation_check(r, d, k, n_seq):
     return why, nontrivial
 
 
+def profile_history_check(r):
+    """loading a shipped profile answers the same whatever was loaded before (custom neutral region, other gene,
+    parameters): the shipped YAML is data, not state"""
+    from aldy.common import GRange
+    from aldy.profile import Profile
+    why = []
+    gname = r.choice(["cyp2d6", "cyp2c19", "tpmt"])
+    gene, _ = instances.load_gene({"kind": "shipped", "name": gname, "genome": "hg19"})
+
+    def view(p):
+        return canon({"neutral_value": p.neutral_value, "cn_region": [p.cn_region.chr, p.cn_region.start, p.cn_region.end] if p.cn_region else None,
+                      "params": {k_: v for k_, v in p.__dict__.items() if k_ not in ("data", "cn_region")},
+                      "data": lib.canon_hash(canon(p.data.get(gene.name)))})
+
+    first = view(Profile.load(gene, "illumina"))
+    L = r.choice([300, 500, 1234])
+    ops = [("custom", L), ("default", None), ("params", None), ("custom", L + 7), ("default", None)]
+    r.shuffle(ops)
+    ops.append(("default", None))
+    hist = []
+    for kind, val in ops:
+        if kind == "custom":
+            p = Profile.load(gene, "illumina", GRange("22", 42547463, 42547463 + val))
+            if p.neutral_value != val:
+                why.append(f"profile loaded with a custom neutral region of length {val} after {hist} has neutral value {p.neutral_value}")
+        elif kind == "params":
+            Profile.load(gene, "illumina", None, gap=0.2, min_coverage=7)
+        else:
+            v = view(Profile.load(gene, "illumina"))
+            if v != first:
+                diff = [k_ for k_ in first if first[k_] != v.get(k_)] if isinstance(first, dict) else ["?"]
+                why.append(f"the shipped illumina profile loaded after {hist} differs from its first load in {diff}")
+        hist.append(kind if val is None else f"{kind}:{val}")
+    return why
+
+
 def determinism_check(r, d, k, n_seeds):
     from aldy.common import GRange, AldyException
     from aldy.genotype import genotype
@@ -515,6 +551,10 @@ def tie(ctx):
             stats["determinism_cases"] += 1
             for w in why:
                 violations.append({"why": w, "input": {"index": k}, "signature": "c14:" + " ".join(w.split(" ")[:4])})
+        for k in range(2 if quick else 10):
+            stats["profile_histories"] += 1
+            for w in profile_history_check(r):
+                violations.append({"why": w, "input": {"index": k, "kind": "profile_history"}, "signature": "c14:profile_load_history"})
         for k in range(2 if quick else 12):
             why, nt = isolation_check(r, d, k, 2 if quick else 4)
             stats["isolation_cases"] += 1
